@@ -82,6 +82,9 @@ def rule_fq2_sqrt(fx, rep):
     for pth, ret, _ in res:
         labs = [lab_name(l) for l in pth.labels]
         desc = [(nm, tk) for nm, tk, _ in labs]
+        if desc and desc[0][0] == 'is_zero' and labs[0][2][1] != Lin.atom('a'):
+            rep.fail('GUARD', 'Fq2::sqrt:zero-test-operand', 'the zero short-circuit tests %r, not the whole input element' % (labs[0][2][1],), where, construct=path)
+            continue
         if desc and desc[0] == ('is_zero', True):
             ok = isinstance(ret, Opt) and ret.tag == 'some' and ret.payload == ('zero',)
             rep.check(ok, 'GUARD', 'Fq2::sqrt:zero', 'sqrt(0) = Some(0)', 'zero input returns %r' % (ret,), where, construct=path)
